@@ -283,6 +283,8 @@ end""", ['s', 'a']),
 ("simult_const_first", "x = 0\ny = 0\ns = 0\nwhile true:\n    b = Bernoulli(1/2)\n    if b == 1:\n        x, y = 0, x\n    else:\n        x = x + 1\n    end\n    s = s + y\nend", ["y", "x", "s"]),      # simultaneous assignment: constant first, then a read of the overwritten variable
 ("func_prev_value", "z = 0\ns = 1\nwhile true:\n    a = Uniform(0, 1)\n    z = s*a\n    s = Exp(a)\nend", ["s", "z"]),      # z reads the PREVIOUS value of the functional variable s: registrations of the goal s must not leak into the goal z
 ("real_roots_rational_largest", "x = 0\ny = 1\nz = 0\nwhile true:\n    z = x\n    x = y\n    y = z/4 + y/4 + 2 {1/2} z/4 + y/4\nend", ["x", "y"]),      # characteristic roots 1 and (1 +- sqrt(17))/8: numeric isolation must not be flagged exact
+("cycle_with_delay_chain", "x = 1\ny = 2\na = 3\nb = 9\nwhile true:\n    x, y = y + a, x\n    a = b\n    b = 4 {1/2} 6\nend", ["y", "x", "a"]),      # cyclic system whose eigenvalue 0 has a Jordan block of size 2: two beginning values are needed
+("nonlinear_chain", "x = 0\ny = 0\nz = 0\nwhile true:\n    x = x + 1 {1/2} x\n    y = y + x**2\n    z = z + y**2\nend", ["z", "y", "x"]),      # two acyclic non-linear dependencies in a chain (README: acceptable): no variable is defective
 ("d18_uninit_under_guard", """x = 3
 c = 0
 while c == 1:
